@@ -65,6 +65,30 @@ CHECKS: dict[str, tuple[str, str, str, str, str]] = {
             "and in pairs.",
             "runtime monitoring: virtual-time call recorder with bound table, error-class check, first-cause oracle and deadlock detector",
             "DESIGN.md §4 C09"),
+    "C06": ("S", "exploration",
+            "End-to-end APIClient.connect against the simulated device over the finite matrix of versions x names (API hello and Noise hello) x "
+            "password verdicts x login x expected-name x framing x response packaging; outcome, error class (with received_name), final state and "
+            "stop-callback count judged by a decision function written from the statement. The matrix is enumerated completely at thorough.",
+            "runtime monitoring: outcome of real connect() per enumerated configuration row vs decision-function oracle",
+            "DESIGN.md §4 C06"),
+    "C10": ("S", "exploration",
+            "Device-side virtual timestamps of every PingRequest and the time/cause of the close are compared (1 us) with an executable keepalive "
+            "model written from the statement, over arrival bitmask schedules (seeded 24-slot; ALL 2^16 16-slot masks for two K at thorough), "
+            "five keepalive values, both framings and structured patterns incl. the (5.5K, 6.5K] detection window.",
+            "runtime monitoring: timestamped wire trace vs executable reference model (keepalive), exhaustive small schedules",
+            "DESIGN.md §4 C10"),
+    "C11": ("S", "exploration",
+            "Recorded histories (request entry, process_packet arrivals, predicate invocations, completions, cancels, closes) of 1-3 concurrent "
+            "request-response calls are judged call by call against a sequential model; after every ending a leftover audit counts handle_timeout "
+            "timers, response-handler registrations and waiters against the calls still pending.",
+            "runtime monitoring: recorded call/arrival history vs per-call sequential model + leftover audit at quiescent points",
+            "DESIGN.md §4 C11"),
+    "C12": ("S", "exploration",
+            "Every type id 0..300 and large ids x payload classes are sent to a live session that has a recording subscriber for every known "
+            "type; effects (callbacks, client writes, state, fatal cause) are compared with expectations derived from the api.proto text and the "
+            "protobuf runtime; re-entrant subscribe/unsubscribe histories are judged by a snapshot-semantics reference dispatcher.",
+            "runtime monitoring: dispatch trace vs reference dispatcher; exhaustive id sweep with payload classes",
+            "DESIGN.md §4 C12"),
 }
 
 NOT_YET = {
